@@ -934,6 +934,9 @@ public:
             if (auto *BO2 = dyn_cast<BinaryOperator>(T)) J.attribute("op", BO2->getOpcodeStr());
             if (const Stmt *C = B->getTerminatorCondition(true)) {
               const Stmt *CC = canon(C);
+              // the whole condition: when the logical expression was materialised as a value in this very block
+              // (conditions with temporaries), stage 2 uses it instead of the leaf
+              if (CC) J.attribute("fullcond", sid(CC));
               // `if (a || b)`: the block ending in the IfStmt evaluates only the right-most leaf of
               // the logical expression; the logical operator itself is not a CFG element
               if (CC) {
